@@ -253,6 +253,7 @@ pub fn def() -> PropDef {
         needs_pairing: false,
         subs: vec![
             Box::new(crate::engine::EnumSub { name: "long-history", rule: super::longhist::RULE, run: run_long_history, replay: super::longhist::replay, exhaustive: false }),
+            Box::new(crate::engine::EnumSub { name: "two-input-bursts", rule: super::longhist::BURST_RULE, run: run_two_input_bursts, replay: super::longhist::replay_burst, exhaustive: false }),
             Box::new(EnumSub { name: "rfc-vectors", rule: "RFC 9380 J.9.1 (msg \"\" and abc), J.9.2 (msg \"\"), J.10.1 (msg \"\") through the crate (enumerated)", run: run_kats, replay: replay_kats, exhaustive: true }),
             Box::new(Sub { name: "g1", rule: "G1 suites vs model pipeline", quick: 3_600, thorough: 40_000, strategy: || boxed(h2c_strategy(0)), check: check_h2c }),
             Box::new(Sub { name: "g2", rule: "G2 suites vs model pipeline", quick: 1_500, thorough: 15_000, strategy: || boxed(h2c_strategy(1)), check: check_h2c }),
